@@ -156,6 +156,29 @@ def run_exit_with(case, ctx):
         except RuntimeError:
             ctx.count("overlapping_calls_rejected")
             ctx.count("overlapping_calls_rejected_after_with_exit")
+        if unfinished and case["i"] % 3 == 0:
+            # the abandoned generator is USED after its block was left: it may still hand out results of its run (each once) and
+            # then stop, or stop at once - an internal error (AttributeError, KeyError, ...) is not a clean end
+            ctx.count("generators_used_after_their_with_block_was_left")
+            seen = list(got)
+            for _ in range(N + 2):
+                pl = Puller(g)
+                pl.start()
+                r = pl.get(10)
+                pl = None
+                if r is None:
+                    ctx.violation("nontermination:use-after-with-exit", f"next() on the generator of an aborted run blocks; {cfg}", cfg)
+                    return
+                if r[0] == "stop":
+                    break
+                if r[0] == "exc":
+                    ctx.violation("use-after-with-exit:" + type(r[1]).__name__, f"next() on a generator whose with block was left raised {type(r[1]).__name__}: {str(r[1])[:160]} "
+                                                                                f"(after {len(seen)} results); {cfg}", cfg)
+                    return
+                if r[1] in seen or r[1][0] != "run1":
+                    ctx.violation("use-after-with-exit:wrong-result", f"next() on a generator whose with block was left delivered {r[1]} (already delivered: {seen}); {cfg}", cfg)
+                    return
+                seen.append(r[1])
         g.close() if rng.random() < 0.5 else None
         g = None
         gc.collect()
